@@ -1228,3 +1228,82 @@ fn handle_insert_lemma_n1() { handle_insert_lemma(1) }
 #[kani::proof]
 #[kani::unwind(6)]
 fn handle_insert_lemma_n2() { handle_insert_lemma(2) }
+
+// ================================================================================================
+// C11: every key and value handed to the cache is dropped exactly once: values replaced by an update
+// and entries removed by invalidate at once, everything else when the cache itself is dropped.
+// Whole operations through the public API from an EMPTY cache (history unrolling: bounded to 1-2
+// inserts, see DESIGN.md 3), drop-counting value type, real drop glue of the cache (map model, deques).
+// ================================================================================================
+static mut DROPS: u32 = 0;
+pub(crate) struct DV(u8);
+impl Drop for DV { fn drop(&mut self) { unsafe { DROPS += 1; } } }
+fn drops() -> u32 { unsafe { DROPS } }
+type CD = Cache<u8, DV, BuildHasherDefault<IdH>>;
+
+#[kani::proof]
+#[kani::unwind(8)]
+#[kani::stub(std::time::Instant::now, now_stub)]
+fn c11_drop_cache_with_one_entry_releases_it_once() {
+    let ttl: bool = kani::any();
+    let mut c: CD = Cache::with_everything(Some(2), None, Default::default(), None, if ttl { Some(Duration::from_secs(10)) } else { None }, None);
+    c.insert(0u8, DV(kani::any()));
+    chk!(drops() == 0 && c.entry_count == 1, "C11: a value was dropped while its entry is resident");
+    drop(c);
+    chk!(drops() == 1, "C11: dropping the cache must drop every resident value exactly once");
+    kani::cover!(true, "end of comparison reached");
+}
+
+#[kani::proof]
+#[kani::unwind(8)]
+#[kani::stub(std::time::Instant::now, now_stub)]
+fn c11_update_and_invalidate_release_values_at_once() {
+    let mut c: CD = Cache::with_everything(Some(2), None, Default::default(), None, None, None);
+    c.insert(0u8, DV(1));
+    c.insert(0u8, DV(2));
+    chk!(drops() == 1, "C11: the replaced value must be dropped by the update (exactly once)");
+    c.invalidate(&0u8);
+    chk!(drops() == 2 && c.entry_count == 0, "C11: an invalidated value must be dropped at once (exactly once)");
+    drop(c);
+    chk!(drops() == 2, "C11: a value was dropped twice (or a phantom value dropped) when the cache was dropped");
+    kani::cover!(true, "end of comparison reached");
+}
+
+#[kani::proof]
+#[kani::unwind(8)]
+#[kani::stub(std::time::Instant::now, now_stub)]
+fn c11_evicted_and_rejected_values_are_released_at_once() {
+    let mut c: CD = Cache::with_everything(Some(1), None, Default::default(), None, None, None);
+    c.insert(0u8, DV(1));
+    c.insert(1u8, DV(2));                       // never looked up: rejected (0 is not > 0), dropped at once
+    chk!(drops() == 1 && c.entry_count == 1 && c.cache.get(&0u8).is_some(), "C11,C13: a rejected newcomer's value must be dropped at once, the resident stays");
+    let miss = c.get(&2u8).is_none();           // recorded lookup: key 2 becomes more popular than key 0
+    chk!(miss, "C01: absent key");
+    c.insert(2u8, DV(3));                       // admitted over key 0
+    chk!(c.cache.get(&2u8).is_some() && c.cache.get(&0u8).is_none(), "C13,C12: the looked-up newcomer displaces the never-read resident");
+    chk!(drops() == 2, "C11: the evicted value must be dropped at once (exactly once)");
+    drop(c);
+    chk!(drops() == 3, "C11: every value handed to the cache is dropped exactly once overall");
+    kani::cover!(true, "end of comparison reached");
+}
+
+#[kani::proof]
+#[kani::unwind(8)]
+#[kani::stub(std::time::Instant::now, now_stub)]
+fn c11_expired_value_is_released_by_the_next_operation() {
+    unsafe { NOW = (100, 0); }
+    let mut c: CD = Cache::with_everything(Some(2), None, Default::default(), None, Some(Duration::from_secs(10)), None);
+    // (native replay: stubs do not apply, the crate's own mock clock stands in for Instant::now)
+    let mock = if cfg!(verif_native) { let (ck, m) = crate::common::time::clock::verif_clock::mock_at(instant_at(100, 0)); c.expiration_clock = Some(ck); Some(m) } else { None };
+    c.insert(0u8, DV(1));
+    unsafe { NOW = (110, 0); }                  // exactly on the deadline
+    if let Some(m) = mock.as_ref() { crate::common::time::clock::verif_clock::set(m, instant_at(110, 0)); }
+    let seen = c.contains_key(&0u8);            // (&mut self on this cache: runs the purge)
+    chk!(!seen, "C05: entry observable on its ttl deadline");
+    chk!(drops() == 1 && c.entry_count == 0 && c.weighted_size == 0, "C11,C10: an expired entry must be released by the next maintenance (value dropped once, counters given back)");
+    let miss = c.get(&0u8).is_none();
+    chk!(miss && drops() == 1, "C05,C11: expired entry came back or was dropped twice");
+    drop(c);
+    chk!(drops() == 1, "C11: expired value dropped twice");
+    kani::cover!(true, "end of comparison reached");
+}
